@@ -223,8 +223,10 @@ class ExprMixin:
             if b[0] == 'i':
                 return T.sdiv(a, T.I(1 << b[1])), ta
         if op == '&':
-            if b[0] == 'i' and (b[1] + 1) & b[1] == 0:
+            if b[0] == 'i' and b[1] >= 0 and (b[1] + 1) & b[1] == 0:
                 return T.smod(a, T.I(b[1] + 1)), ta
+            # the same uninterpreted function the code's `&` is lowered to (exec_instr.binop)
+            return T.UF('band', [T.INT, T.INT], T.INT)(a, b), ta
         raise Unsupported('binary operator %s in contract' % op)
 
     def named_product(self, a, b):
